@@ -423,12 +423,16 @@ impl ParolLsGrammar {
         if let Some((item, kind)) = ident {
             if let SymbolDefsType::Terminal = kind {
                 // Terminals show their %t_type definition if available
-                if let Some(ranges) = self.terminal_type.find_definitions(item) {
-                    debug_assert!(ranges.len() == 1);
+                // There can be more than one %t_type declaration, the last one wins
+                if let Some(range) = self
+                    .terminal_type
+                    .find_definitions(item)
+                    .and_then(|ranges| ranges.last().copied())
+                {
                     let _ = write!(
                         value,
                         "{}",
-                        to_markdown(extract_text_range(input, Rng(ranges[0])))
+                        to_markdown(extract_text_range(input, Rng(range)))
                     );
                 }
             } else {
